@@ -249,8 +249,11 @@ class Explorer:
             return bool(self._inline(fn, st))
         return False
 
-    def explore(self, fn: FuncInfo, args: Optional[Dict[str, object]] = None) -> List[Path]:
+    def explore(self, fn: FuncInfo, args: Optional[Dict[str, object]] = None,
+                heap: Optional[Dict[Tuple[object, object], object]] = None) -> List[Path]:
         st = State()
+        if heap:
+            st.heap.update(heap)
         env: Dict[str, object] = {}
         for p in fn.param_names + [a.arg for a in fn.kwonly]:
             env[p] = atomv(('var', p))
